@@ -101,7 +101,25 @@ func analyse(fd *ast.FuncDecl) row {
 		}
 	}
 	if acc == "" {
-		die("%s: does not end in `return <variable>`", r.name)
+		// `return p.parseX(n)`: a pass-through tier (parseExpression written without a local)
+		if n := len(fd.Body.List); n > 0 {
+			if rs, ok := fd.Body.List[n-1].(*ast.ReturnStmt); ok && len(rs.Results) == 1 {
+				if pc := parseCall(rs.Results[0], recv); pc != "" {
+					hasNode := false
+					ast.Inspect(fd.Body, func(m ast.Node) bool {
+						if c, ok := m.(*ast.CallExpr); ok && isCallTo(c, "newOperatorNode") != nil {
+							hasNode = true
+						}
+						return true
+					})
+					if !hasNode {
+						r.sub = pc
+						return r
+					}
+				}
+			}
+		}
+		die("%s: does not end in `return <variable>` or `return <parse call>`", r.name)
 	}
 	// what each local was last assigned from a parse call (for `opnd2 := p.parseX(n)`)
 	fromCall := map[string]string{}
